@@ -18,6 +18,7 @@ let () =
          | Ok (L (A "cmd" :: A ci :: _)) -> cur_cmd := ci
          | Ok (L (A "call" :: A f :: args)) ->
              incr calls;
+             Monitors.on_call !cur_case !cur_cmd f args;
              Hashtbl.replace by_fn f (1 + (try Hashtbl.find by_fn f with Not_found -> 0));
              (match (try check_call f args with Bad m -> Some ("DRIVER-ERROR " ^ m) | Not_found -> Some "DRIVER-ERROR Not_found"
                                                | Failure m -> Some ("DRIVER-ERROR " ^ m)) with
